@@ -277,20 +277,24 @@ def hostile_root_scenarios():
     the last, harmless root must be accepted.  All targets stay inside the scratch directory."""
     out = []
     base = {"repo_spec": "1.1", "obj_spec": "1.1", "alg": "sha512", "cdir": "content", "pad": 0, "ext_staging": False}
-    roots = ["a/inner", "tmp/../a/inner", "ghost/../../escaped", "a/../b", "./c/./d", "x//y", "new/sub/../../a/v1/content/deep",
+    roots = ["a", "a/inner", "tmp/../a/inner", "ghost/../../escaped", "a/../b", "./c/./d", "x//y", "new/sub/../../a/v1/content/deep",
              "a/v1", "extensions/e", "q/..", "fine/o2"]
     for fresh in (False, True):
         cfg = dict(base, layout="none", fresh_handle=fresh)
         ops = [{"op": "new", "id": "o1"}, {"op": "cp_ext", "id": "o1", "files": [["a.txt", 1]], "dst": "a.txt", "recursive": False},
                {"op": "commit", "id": "o1", "object_root": "a"},
-               {"op": "new", "id": "o2"}, {"op": "cp_ext", "id": "o2", "files": [["b.txt", 2]], "dst": "b.txt", "recursive": False}]
+               {"op": "new", "id": "o2"}, {"op": "cp_ext", "id": "o2", "files": [["b.txt", 2]], "dst": "b.txt", "recursive": False},
+               # the same new content under two names (de-duplicated by every commit attempt, put back after each refusal),
+               # one of them a name the occupant of root `a` has too
+               {"op": "cp_ext", "id": "o2", "files": [["a.txt", N_COMMON + 2]], "dst": "a.txt", "recursive": False},
+               {"op": "cp_ext", "id": "o2", "files": [["c.txt", N_COMMON + 2]], "dst": "c.txt", "recursive": False}]
         for r in roots:
             ops.append({"op": "commit", "id": "o2", "object_root": r})
         out.append((cfg, ops))
     cfg = dict(base, layout="0002", fresh_handle=False)
     ops = [{"op": "new", "id": "a"}, {"op": "cp_ext", "id": "a", "files": [["a.txt", 1]], "dst": "a.txt", "recursive": False},
            {"op": "commit", "id": "a"}]
-    for k, r in enumerate(roots):
+    for k, r in enumerate(roots[1:]):            # (the id `a` itself is the existing object, not a hostile one)
         ops += [{"op": "new", "id": r}, {"op": "cp_ext", "id": r, "files": [["b.txt", 2 + k]], "dst": "b.txt", "recursive": False},
                 {"op": "commit", "id": r}]
     out.append((cfg, ops))
@@ -315,6 +319,24 @@ def upgrade_scenarios():
                {"op": "new", "id": c}, cp(c, "a.txt", 5), {"op": "commit", "id": c},
                {"op": "upgrade_object", "id": c, "spec": "1.1"}, {"op": "upgrade_object", "id": c, "spec": "1.1"},
                cp(c, "d.txt", 6), {"op": "commit", "id": c}]
+        out.append((cfg, ops))
+    return out
+
+
+def backslash_scenarios():
+    """scripted histories (C01): file names containing a backslash - an ordinary character of a name on this
+    platform - are copied to literal destinations (no glob argument names them: there the backslash is the escape
+    character) and committed, in a first and in a later version; every manifest path must have its file"""
+    out = []
+    for n, (lay, cdir, pad) in enumerate([("0004", "content", 0), ("0002", "data", 3)]):
+        cfg = {"layout": lay, "repo_spec": "1.1", "obj_spec": "1.1", "alg": ("sha512", "sha256")[n], "cdir": cdir, "pad": pad,
+               "ext_staging": n == 1, "fresh_handle": n == 1}
+        o = obj_id(cfg, 0)
+        cp = lambda src, dst, k: {"op": "cp_ext", "id": o, "files": [[src, k]], "dst": dst, "recursive": False}
+        ops = [{"op": "new", "id": o}, cp("p.txt", "plain.txt", 1), cp("r.txt", "reports\\2024.txt", N_COMMON + 4),
+               {"op": "commit", "id": o},
+               cp("c.txt", "dir/sub/c\\d.txt", N_COMMON + 5), cp("e.txt", "e\\f.txt", N_COMMON + 6), cp("q.txt", "dir/q.txt", 2),
+               {"op": "commit", "id": o, "pretty": True}]
         out.append((cfg, ops))
     return out
 
@@ -496,7 +518,27 @@ class Runner:
             return os.path.join(self.root, "no-such-committed-file")
         raise ValueError(lit)
 
+    def driver_action(self, op):
+        """something a third party (or an interrupted earlier run) did to the main repository: {"op": "driver",
+        "action": "mkdir" | "rmtree", "id": <object id>, "rel": <path below the object root>}"""
+        target = None
+        for r in find_object_roots(self.root):
+            inv = read_inventory(r)
+            if inv and inv.get("id") == op["id"]:
+                target = os.path.join(r, op["rel"])
+        if target is None:
+            return dict(cmd="driver", **op), {"err": {"kind": "NotFound", "msg": "no such object"}}
+        if op["action"] == "mkdir":
+            os.makedirs(target, exist_ok=True)
+        elif op["action"] == "rmtree":
+            shutil.rmtree(target, ignore_errors=True)
+        else:
+            raise ValueError(op)
+        return dict(cmd="driver", **op), {"ok": {}}
+
     def step(self, op):
+        if op["op"] == "driver":
+            return self.driver_action(op)
         if self.cfg.get("fresh_handle"):
             self.reopen()
         cmd = self.concrete(op)
